@@ -65,6 +65,64 @@ func (w *vWorld) kubelet() bool {
 	return changed
 }
 
+// clone copies the objects of the world (caches and server state); logs and fault settings start empty.
+func (w *vWorld) clone() *vWorld {
+	c := &vWorld{uidSeq: w.uidSeq}
+	for _, p := range w.pods {
+		c.pods = append(c.pods, p.DeepCopy())
+	}
+	for _, p := range w.pvcs {
+		c.pvcs = append(c.pvcs, p.DeepCopy())
+	}
+	for _, p := range w.sets {
+		c.sets = append(c.sets, p.DeepCopy())
+	}
+	for _, p := range w.apiPods {
+		c.apiPods = append(c.apiPods, p.DeepCopy())
+	}
+	for _, p := range w.apiPVCs {
+		c.apiPVCs = append(c.apiPVCs, p.DeepCopy())
+	}
+	for _, p := range w.apiRevs {
+		c.apiRevs = append(c.apiRevs, p.DeepCopy())
+	}
+	for _, p := range w.apiSets {
+		c.apiSets = append(c.apiSets, p.DeepCopy())
+	}
+	return c
+}
+
+// assertSameFinalState (C09): the run that suffered failures ends where the run without failures ends:
+// the same pods, each at the same revision, the same claims, and the same status.
+func (s *vSnap) assertSameFinalState(a, b *vWorld) {
+	revOf := func(w *vWorld, name string) string {
+		for _, p := range w.apiPods {
+			if p.Name == name {
+				return "rev:" + getPodRevision(p)
+			}
+		}
+		return "absent"
+	}
+	// the creation revision under RollingUpdate without a rollingUpdate block follows the legacy
+	// status.currentReplicas rule, which the statement's partition does not define (outside the claim)
+	legacy := sym.ConcreteBool(sym.And(s.rolling, !s.partOK))
+	for x := 0; x < s.n; x++ {
+		name := getPodName(s.set, x)
+		ra, rb := revOf(a, name), revOf(b, name)
+		sym.Assert((ra == "absent") == (rb == "absent"), "C09", "same pods as the run without failures")
+		if !legacy {
+			sym.Assert(ra == rb, "C09", "every pod ends at the same revision as in the run without failures")
+		}
+	}
+	sym.Assert(len(a.apiPVCs) == len(b.apiPVCs), "C09", "same claims as the run without failures")
+	sa, sb := a.apiSets[0].Status, b.apiSets[0].Status
+	sym.Assert(sa.Replicas == sb.Replicas && sa.ReadyReplicas == sb.ReadyReplicas, "C09", "same status counters as the run without failures")
+	if !legacy {
+		sym.Assert(sa.CurrentRevision == sb.CurrentRevision && sa.UpdateRevision == sb.UpdateRevision, "C09", "same current and update revision as the run without failures")
+		sym.Assert(sa.CurrentReplicas == sb.CurrentReplicas && sa.UpdatedReplicas == sb.UpdatedReplicas, "C09", "same revision counters as the run without failures")
+	}
+}
+
 func (w *vWorld) writesSince(mark int) int {
 	n := 0
 	for _, op := range w.ops[mark:] {
@@ -187,6 +245,10 @@ func VH_Fault(a []int) {
 	if len(a) > 6 {
 		w.faultBudget = a[6] // pairs of failures in one reconcile
 	}
+	var twin *vWorld
+	if len(a) > 7 && a[7] == 1 {
+		twin = w.clone() // the same start state, for a run without failures
+	}
 	crashed := false
 	var err error
 	func() {
@@ -238,7 +300,9 @@ func VH_Fault(a []int) {
 		sym.Cover("two calls failed in one reconcile")
 	}
 	if unrecovered && !crashed {
-		sym.Disc(w.faulted[0])
+		if len(w.faulted) > 0 { // else the call failed by itself (a re-created pod whose predecessor is still terminating)
+			sym.Disc(w.faulted[0])
+		}
 		sym.Assert(err != nil, "C09", "a failed API call makes the reconcile report failure")
 		sym.Disc("")
 	}
@@ -262,6 +326,26 @@ func VH_Fault(a []int) {
 	}
 	sym.Assert(fixed, "C09", "after the failure a fixed point is reached")
 	s.assertConverged("C09")
+	if twin != nil && fixed {
+		// the run without failures, from the same start state
+		tsc := vNewController(twin)
+		tfixed := false
+		for t := 0; t < T; t++ {
+			twin.refresh()
+			mark := len(twin.ops)
+			tsc.sync(key)
+			writes := twin.writesSince(mark)
+			moved := twin.kubelet()
+			if writes == 0 && !moved {
+				tfixed = true
+				break
+			}
+		}
+		if tfixed {
+			s.assertSameFinalState(w, twin)
+			sym.Cover("final state compared with the run without failures")
+		}
+	}
 	if crashed {
 		sym.Cover("recovered from a crash")
 	} else {
